@@ -58,7 +58,7 @@ func checkC06(c *Ctx, r *Report) {
 	r.Explanation = "Narrow clauses of the encrypt/decrypt path: (O-KEEP) in TrafBox.RemoveEncryptionBoxes every child is either kept or its Size() is added to the removed byte count; " +
 		"(DEP) the correction applied to every trun.DataOffset in DecryptFragment depends on the byte counts returned by RemoveEncryptionBoxes and RemovePsshs; the saio offset written by EncryptFragment depends on the sizes of all moof children preceding the traf and of the traf children preceding senc; " +
 		"InitProtect stores the ORIGINAL sample entry type in frma (captured before SetType); RemoveEncryption restores the sample entry type from sinf.Frma.DataFormat; what is stored in senc/saiz for a sample (iv, sub-sample pattern) is what the crypt call used, with no IV update in between; " +
-		"DecryptInit attaches each trex to the track info with the same track id (not by position); (O-EVERY) every iteration of DecryptFragment's loop over the track fragments reaches RemoveEncryptionBoxes; (O-IVLEN) in SencBox.ParseReadBox k bytes are read per IV under perSampleIVSize == k; (O-RO) no slice write in package mp4 targets storage of a tenc box field; ContainsSencBox reports 'not found' only after all children were examined; on decrypt the crypt call's iv and pattern depend on senc.IVs / tenc.DefaultConstantIV and senc.SubSamples. Decides these necessary conditions; byte-exact restoration (cipher arithmetic), counter wrap and timing fields are not decided."
+		"DecryptInit attaches each trex to the track info with the same track id (not by position); (L-NILRANGE) no loop in package mp4 runs over a field that was set to nil just before (RemovePsshs sums the sizes of the saved list: the removed byte count corrects data offsets); (O-EVERY) every iteration of DecryptFragment's loop over the track fragments reaches RemoveEncryptionBoxes; (O-IVLEN) in SencBox.ParseReadBox k bytes are read per IV under perSampleIVSize == k; (O-RO) no slice write in package mp4 targets storage of a tenc box field; ContainsSencBox reports 'not found' only after all children were examined; on decrypt the crypt call's iv and pattern depend on senc.IVs / tenc.DefaultConstantIV and senc.SubSamples. Decides these necessary conditions; byte-exact restoration (cipher arithmetic), counter wrap and timing fields are not decided."
 	r.Assume("dependence = intraprocedural SSA data dependence plus return-value dependence of repository callees (3 levels)")
 	ruleKeepOrCount(c, r)
 	if f := c.ssaFunc(r, "DEP", "mp4", "DecryptFragment"); f != nil {
@@ -123,6 +123,12 @@ func checkC06(c *Ctx, r *Report) {
 	ruleStoredIsUsed(c, r)
 	ruleTrexByID(c, r)
 	ruleEveryIteration(c, r)
+	if n := ruleDeadRange(c, r, func(f *ssa.Function) bool { return strings.HasPrefix(SSAFuncName(f), "mp4.") }); n < 200 {
+		r.Undecided("L-NILRANGE", "scope", "", "too few loops over struct fields found")
+	} else {
+		r.OK("L-NILRANGE", "scope", "", fmt.Sprintf("%d loops/len() over slice fields in package mp4: none runs over a field that was set to nil just before", n))
+	}
+	requireFixture(r, "L-NILRANGE", "removeAll", func(fc *Ctx, s *Report) { ruleDeadRange(fc, s, nil) })
 	ruleIVBytes(c, r)
 	ruleTencReadOnly(c, r)
 	ruleSencSearch(c, r)
@@ -300,11 +306,20 @@ func collectValues(vs []ssa.Value, out map[ssa.Value]bool, d int) {
 func checkC07(c *Ctx, r *Report) {
 	r.Explanation = "Narrow clauses: (S-CLONE) GetAVCProtectRanges and GetHEVCProtectRanges are the same function modulo the avc/hevc package (normalised AST comparison: comments, error texts and local names ignored); " +
 		"(WHO) on the encrypt path SubSamplePattern values are constructed only inside AppendProtectRange, which keeps the 65535-byte clear-run split in one place; " +
-		"(O-USED) senc/saiz record exactly the iv and pattern the crypt call used, the cenc iv is advanced after each sample and the cbcs iv never; (O-FRESHIV) in cbcs every protected range is coded with a block mode created from the IV for that range (in the function coding one range, or by its caller inside the same loop iteration); (DEP) the saio offset is accumulated over the boxes that precede the senc data. " +
+		"(O-USED) senc/saiz record exactly the iv and pattern the crypt call used, the cenc iv is advanced after each sample and the cbcs iv never; (L-SIBLING) in the slice-header parsers that feed the cbcs clear/protected boundary no loop fills one of two twin lists (weights L0/L1, delta POCs S0/S1) while deciding with the other; (O-FRESHIV) in cbcs every protected range is coded with a block mode created from the IV for that range (in the function coding one range, or by its caller inside the same loop iteration); (DEP) the saio offset is accumulated over the boxes that precede the senc data. " +
 		"NOT decided, stated plainly: that protected bytes equal an independent AES-CTR / AES-CBC implementation, the 16-byte block and 1:9 pattern arithmetic, exactness of the partition, IV carry arithmetic."
 	ruleSClone(c, r, "mp4", "GetAVCProtectRanges", "GetHEVCProtectRanges", map[string]string{"avc": "hevc"})
 	ruleWhoConstructs(c, r)
 	ruleStoredIsUsed(c, r)
 	ruleSaioOffset(c, r)
 	ruleFreshCBC(c, r)
+	if n := ruleSiblingSlices(c, r, func(f *ssa.Function) bool {
+		n := SSAFuncName(f)
+		return strings.HasPrefix(n, "avc.") || strings.HasPrefix(n, "hevc.") || strings.HasPrefix(n, "mp4.")
+	}); n < 20 {
+		r.Undecided("L-SIBLING", "scope", "", "too few single-list loops found")
+	} else {
+		r.OK("L-SIBLING", "scope", "", fmt.Sprintf("%d loops that fill the elements of one slice field in avc, hevc, mp4: none decides with the twin list (…L0/…L1, …S0/…S1) only", n))
+	}
+	requireFixture(r, "L-SIBLING", "siblingLoop", func(fc *Ctx, s *Report) { ruleSiblingSlices(fc, s, nil) })
 }
